@@ -32,7 +32,7 @@ def ref_enclose(value, metadata, apply_int_rule, reuse, enclose_integers, defaul
         enc = metadata
     elif apply_int_rule and not enclose_integers and is_integer(value):
         return str(value)
-    return {"{": "{" + str(value) + "}", '"': '"' + str(value) + '"', "no-enclosing": value}[enc]
+    return {"{": "{" + str(value) + "}", '"': '"' + str(value) + '"', "no-enclosing": str(value)}[enc]
 
 
 def observers(fn_node: ast.FunctionDef, param: str):
@@ -189,7 +189,8 @@ def run(P: Program, rep: Report):
 
     rep.rule("C10.R3", "enclose table: over (reuse, enclose_integers, default, recorded enclosing, numeric-field flag, value kind "
                        "incl. Python int): a recorded enclosing wins when reuse is on; otherwise an integer value of a numeric "
-                       "field stays unenclosed iff enclose_integers is off; otherwise the default; never an exception")
+                       "field stays unenclosed iff enclose_integers is off; otherwise the default; never an exception, and the result is "
+                       "always text (the writer joins it with the other pieces of the entry)")
     vals = ["123", "abc", "12a", "", "0", 1990, 0, "{x}"]
     badr = {}
     n3 = 0
@@ -210,7 +211,7 @@ def run(P: Program, rep: Report):
             vk = "int" if isinstance(val, int) else "digits" if is_integer(val) else "text"
             if kind == "raise":
                 badr.setdefault(f"raises-{v.cls_name()}:{vk}", f"_enclose raises {v.cls_name()} for {cfg}")
-            elif v != want and not (isinstance(want, int) and v == str(want)):
+            elif v != want or not isinstance(v, str):
                 badr.setdefault(f"result:{vk}:{'reuse' if reuse and meta is not None else 'int-rule' if air and not ei else 'default'}",
                                 f"_enclose gives {v!r}, the rule gives {want!r} for {cfg}")
     rep.count("enclose_table_rows", n3)
@@ -300,6 +301,34 @@ def run(P: Program, rep: Report):
             else:
                 rep.check(v[0] == want and v[1] == "{1990}", "C10.R4", c, acls.loc,
                           f"AddEnclosing(enclose_integers={ei}) turns {key}={val!r} into {v[0]!r} (expected {want!r}) and @string 1990 into {v[1]!r} (expected '{{1990}}')")
+    # a second removal on the same entry records what IT stripped (no stale record from the first pass); in copy mode the
+    # record of an @string is written to the copy, not to the source block
+    def second_pass(ctx):
+        it = driver_interp(P, ctx, "middlewares.enclosing")
+        mk = lambda c, *a, **k: new_obj(it, P, "model", c, *a, **k)
+        e = mk("Entry", entry_type="a", key="k", start_line=0, raw="r", fields=AList([
+            mk("Field", key="title", value='"{Nested}"', start_line=1), mk("Field", key="note", value='{"q"}', start_line=2)]))
+        st = mk("String", key="s", value='"{B}"', start_line=3, raw="r")
+        lib = new_obj(it, P, "library", "Library")
+        call(it, lib, "add", AList([e, st]))
+        try:
+            l1 = call(it, it.construct(rcls, [], {"allow_inplace_modification": False}), "transform", lib)
+            src_meta = it.get_attr(st, "parser_metadata")
+            l2 = call(it, it.construct(rcls, [], {}), "transform", l1)
+            vals2 = [it.get_attr(f, "value") for f in it.iterate(it.get_attr(it.get_attr(l2, "entries").items[0], "fields"))]
+            l3 = call(it, it.construct(acls, [], {"reuse_previous_enclosing": True, "enclose_integers": True, "default_enclosing": '"'}), "transform", l2)
+            vals3 = [it.get_attr(f, "value") for f in it.iterate(it.get_attr(it.get_attr(l3, "entries").items[0], "fields"))]
+            s3 = it.get_attr(it.get_attr(l3, "strings").items[0], "value")
+            return (vals2, vals3, s3, dict(src_meta.items) if isinstance(src_meta, ADict) else src_meta)
+        except Raised as r:
+            return r.cls_name()
+    for ctx, v in explore(second_pass, 20):
+        ok = isinstance(v, tuple) and v[0] == ["Nested", "q"] and v[1] == ["{Nested}", '"q"'] and v[2] == "{B}" and v[3] == {}
+        rep.check(ok, "C10.R4", "call-site:second-removal", rcls.loc,
+                  f"two removals then add(reuse): values after the second removal {v[0] if isinstance(v, tuple) else v!r} (expected ['Nested', 'q']), "
+                  f"re-enclosed {v[1] if isinstance(v, tuple) else ''!r} (expected ['{{Nested}}', '\"q\"']), @string {v[2] if isinstance(v, tuple) else ''!r} "
+                  f"(expected '{{B}}'), metadata written to the source @string in copy mode: {v[3] if isinstance(v, tuple) else ''!r} (expected none)")
+
     # a field without a recorded enclosing (added after parsing) gets the default, whatever its neighbours recorded
     def partial(ctx):
         it = driver_interp(P, ctx, "middlewares.enclosing")
@@ -331,3 +360,8 @@ def run(P: Program, rep: Report):
         for ctx, v in explore(one, 5):
             rep.check(v == "ValueError", "C10.R4", f"constructor-rejects:{bad_default!r}", acls.loc,
                       f"AddEnclosingMiddleware(default_enclosing={bad_default!r}) is {v}, expected ValueError")
+
+    rep.rule("C10.R9", "no unsafe memoisation in the modules this property rests on: a function decorated with lru_cache / cache / "
+                      "cached_property neither takes nor returns a mutable object (else later calls see stale or shared results)")
+    from . import common as _common
+    _common.no_unsafe_memoisation(P, rep, "C10.R9", ['middlewares.enclosing'])
